@@ -824,7 +824,9 @@ fn main() {
                     }
                 }
                 if let Some(why) = bad {
-                    if violations.len() < 4 {
+                    // (an answer that changes between two lookups on one database cannot be
+                    // expected to reproduce; that irreproducibility is the finding itself)
+                    if violations.len() < 4 && !why.contains("twice differently") {
                         // a failing schedule must reproduce on replay
                         let again = pool.run_batch(&[Task { scenario: si, prefix: choices.clone(), policy: None }, Task { scenario: si, prefix: choices.clone(), policy: None }]);
                         if again[0].answers != x.answers || again[1].answers != x.answers {
